@@ -121,15 +121,51 @@ def reload_side(ctx):
 # C11
 
 def run_timeout(wk, scenario, timeout=2):
-    nworkers = 2
+    nworkers = 1 if scenario == "healthy2" else 2
+    port2 = rp.free_port() if scenario == "healthy2" else None
     s = rp.Server(wk, workers=nworkers, threads=2 if wk == "gthread" else None,
-                  args=["--timeout", str(timeout), "--graceful-timeout", "2"], name="c11")
+                  args=["--timeout", str(timeout), "--graceful-timeout", "2"] +
+                       (["-b", "127.0.0.1:%d" % port2] if port2 else []), name="c11")
     try:
         s.start()
         initial = s.wait_booted(nworkers)
         time.sleep(0.3)
         ev = []
         slack = 2500
+        if scenario == "healthy2":
+            # one worker, two listeners: while it serves a first request, one request is queued on EACH listener;
+            # each lasts 0.75 x timeout, so the worker is busy but never silent for a whole timeout per request
+            import socket as _socket
+            res = {}
+
+            def req(port, name, t):
+                try:
+                    c = _socket.create_connection(("127.0.0.1", port))
+                    c.settimeout(timeout * 6)
+                    c.sendall(("GET /sleep?t=%s HTTP/1.1\r\nHost: h\r\nConnection: close\r\n\r\n" % t).encode())
+                    r = rp.read_response(c)
+                    res[name] = r[0]
+                    c.close()
+                except OSError:
+                    res[name] = 0
+            fails = n = 0
+            for _ in range(2):
+                ths = [threading.Thread(target=req, args=(s.port, "c", timeout * 0.5))]
+                ths[0].start()
+                time.sleep(0.3)
+                ths += [threading.Thread(target=req, args=(s.port, "a", timeout * 0.75)),
+                        threading.Thread(target=req, args=(port2, "b", timeout * 0.75))]
+                ths[1].start()
+                ths[2].start()
+                [t.join() for t in ths]
+                n += 3
+                fails += sum(1 for k in ("a", "b", "c") if res.get(k) != 200)
+            time.sleep(1.2)
+            alive = [p for p in initial if rp.proc_state(p) not in (None, "Z")]
+            ev.append({"e": "healthy", "killed": len(initial) - len(alive)})
+            ev.append({"e": "others", "ok": n - fails, "failed": fails})
+            tr = {"scenario": scenario, "wk": wk, "timeout_ms": timeout * 1000, "bound_ms": 0, "ev": ev}
+            return tr, {"wk": wk, "scenario": scenario, "requests": n, "failed": fails}
         # hang -> ABRT at most timeout + 1 s (master loop) later; ignored ABRT -> KILL one more loop (1 s) later
         bound = timeout * 1000 + 1000 + (1000 if scenario == "ignore" else 0) + 1000 + slack
         if scenario == "healthy":
@@ -212,9 +248,10 @@ def run_timeout(wk, scenario, timeout=2):
 
 
 def timeout_side(ctx):
-    plan = [("sync", "hang"), ("gthread", "stop"), ("sync", "healthy"), ("gevent", "healthy")] if ctx.quick else \
-        [(wk, sc) for wk in ("sync", "gthread", "gevent", "eventlet") for sc in ("hang", "stop", "ignore", "healthy")]
-    results = _parallel(plan, lambda a, i: run_timeout(a[0], a[1]))
+    plan = [("sync", "hang"), ("gthread", "stop"), ("sync", "healthy"), ("gevent", "healthy"), ("sync", "healthy2")] if ctx.quick else \
+        [(wk, sc) for wk in ("sync", "gthread", "gevent", "eventlet") for sc in ("hang", "stop", "ignore", "healthy")] + \
+        [("sync", "healthy2"), ("gthread", "healthy2")]
+    results = _parallel(plan, lambda a, i: run_timeout(a[0], a[1]), par=5)
     traces = [r[0] for r in results]
     metas = [r[1] for r in results]
     verdicts, stats = tlc.validate_batch("TimeoutTrace", "TimeoutTrace.cfg", traces, name="TimeoutTrace_C11")
